@@ -24,6 +24,9 @@ def frame_pool():
         "float": pd.DataFrame({"x": [1.0, 2.0, 3.5], "y": ["a", "b", "c"]}),
         "null": pd.DataFrame({"x": [1.0, np.nan, 3.0], "y": ["a", "b", "c"]}),
         "colorder": pd.DataFrame({"y": ["a", "b", "c"], "x": [1, 2, 3]}),
+        # the same SET of column names bound to different columns (values identical by position)
+        "ab": pd.DataFrame({"a": [1, 2], "b": [3, 4]}), "ba": pd.DataFrame({"b": [1, 2], "a": [3, 4]}),
+        "ab_swapped_values": pd.DataFrame({"a": [3, 4], "b": [1, 2]}),
         "empty": pd.DataFrame({"x": pd.Series([], dtype="int64")}),
         "r1": pd.DataFrame({"r": [10]}), "r2": pd.DataFrame({"r": [20]}), "r3": pd.DataFrame({"r": [10, 20]}),
     }
